@@ -4,7 +4,7 @@ def run(ctx):
     return standard(ctx,
         props=[("Props.C05", ["c05_inv", "c05_no_cross_user", "c05_onetime", "c05_expired",
                               "c05_old_poll_refuted", "c05_old_totp_replay_refuted", "c05_old_challenge_refuted", "c05_old_cert_cookie_refuted",
-                              "c05_cookie_expired", "c05_first_cookie_refuted"])],
+                              "c05_cookie_expired", "c05_first_cookie_refuted", "c05_old_vip_expiry_refuted"])],
         harness=("TestVerif_C05", ["kmd/common.go", "kmd/creds.go", "kmd/consts.go", "kmd/c05.go"]),
         cases=("CasesC05.v", [("c05_mismatches", "per-step (success, subject, level, iat, exp) of every history: real handlers = Model.Session")], "CasesC05.idx"),
         trusted=["external verifiers are environment: the fake VIP endpoint, the TOTP algorithm (pquerna/otp), ECDSA / the U2F and WebAuthn libraries decide whether a presented value is right; the model carries their answer and whom it is about",
